@@ -74,7 +74,12 @@ class UpdateHandler(MessageHandler):
         Stores all NLRIs in the incoming RIB cache.
         """
         update = cast(Update, message)
-        parsed = update.data  # Already parsed by unpack_message
+        parsed = getattr(update, 'data', None)  # Already parsed by unpack_message
+        if parsed is None:
+            # End-of-RIB (EOR) and the placeholder read_message returns for an UPDATE nobody wants
+            # decoded share Update.TYPE but are not wire containers: there is no route in them to store
+            self._number += 1
+            return
         self._number += 1
 
         log.debug(lazymsg('update.received number={number}', number=self._number), ctx.peer_id)
@@ -111,7 +116,12 @@ class UpdateHandler(MessageHandler):
         Same logic as sync - no async I/O needed for inbound processing.
         """
         update = cast(Update, message)
-        parsed = update.data  # Already parsed by unpack_message
+        parsed = getattr(update, 'data', None)  # Already parsed by unpack_message
+        if parsed is None:
+            # End-of-RIB (EOR) and the placeholder read_message returns for an UPDATE nobody wants
+            # decoded share Update.TYPE but are not wire containers: there is no route in them to store
+            self._number += 1
+            return
         self._number += 1
 
         log.debug(lazymsg('update.received number={number}', number=self._number), ctx.peer_id)
